@@ -3,6 +3,7 @@ use serde_json::Value;
 
 use crate::engine::{CheckResult, Ctx, Tier};
 
+pub mod c02;
 pub mod c15;
 
 pub struct PropDef {
@@ -22,7 +23,7 @@ pub struct PropDef {
 }
 
 pub fn all() -> Vec<PropDef> {
-    vec![c15::def()]
+    vec![c02::def(), c15::def()]
 }
 
 pub fn find(id: &str) -> Option<PropDef> {
